@@ -150,7 +150,11 @@ func VerifDepthBudget() {
 	k := vrt.Param("k")
 	via := vrt.Param("via")
 	var pre, suf []byte
+	wide := vrt.ParamOr("wide", 0) // sibling fields of variable size (empty Kids lists) on every level: they cost no depth
 	for l := 0; l < k; l++ {
+		for w := 0; w < wide; w++ {
+			pre = append(pre, 15, 0, 3, 12, 0, 0, 0, 0)
+		}
 		if via == 0 {
 			pre = append(pre, 12, 0, 2)
 		} else {
